@@ -30,6 +30,10 @@ func (re *Regexp) Split(input string, count int) ([]string, error) {
 		count = math.MaxInt
 	}
 
+	if re.RightToLeft() {
+		return re.splitRTL(input, count)
+	}
+
 	// iterate through the matches
 	priorIndex := 0
 	var retVal []string
@@ -63,5 +67,41 @@ func (re *Regexp) Split(input string, count int) ([]string, error) {
 	// append our remainder
 	retVal = append(retVal, string(txt[priorIndex:]))
 
+	return retVal, nil
+}
+
+// splitRTL is Split for right-to-left patterns: matches arrive from the end of
+// the input, the pieces are collected backwards and reversed at the end.
+func (re *Regexp) splitRTL(input string, count int) ([]string, error) {
+	var retVal []string
+	var txt []rune
+
+	m, err := re.FindStringMatch(input)
+	priorIndex := 0
+	if m != nil {
+		priorIndex = len(m.text.runes)
+	}
+
+	for ; m != nil && count > 0; m, err = re.FindNextMatch(m) {
+		txt = m.text.runes
+		retVal = append(retVal, string(txt[m.RuneIndex+m.RuneLength:priorIndex]))
+		gs := m.Groups()
+		for i := len(gs) - 1; i >= 1; i-- {
+			retVal = append(retVal, gs[i].String())
+		}
+		priorIndex = m.RuneIndex
+		count--
+	}
+
+	if err != nil {
+		return nil, err
+	}
+	if txt == nil {
+		return []string{input}, nil
+	}
+	retVal = append(retVal, string(txt[:priorIndex]))
+	for i, j := 0, len(retVal)-1; i < j; i, j = i+1, j-1 {
+		retVal[i], retVal[j] = retVal[j], retVal[i]
+	}
 	return retVal, nil
 }
